@@ -159,13 +159,6 @@ def load_known():
 
 def _shard_entry(fn, args, q, idx):
     try:
-        # the lock-stepped manager thread and the harness thread hand a baton back and forth:
-        # keeping both on one core avoids cross-core wake-up latency
-        cpus = sorted(os.sched_getaffinity(0))
-        os.sched_setaffinity(0, {cpus[idx % len(cpus)]})
-    except Exception:
-        pass
-    try:
         res = fn(*args)
         q.put((idx, "ok", res))
     except HarnessError as e:
